@@ -783,6 +783,8 @@ impl<T: Transport, Env: UtpEnvironment> VirtualSocket<T, Env> {
         if let Some(seq_nr) = probe_exceeds_cwnd {
             if self.user_tx_segments.pop_mtu_probe(seq_nr) {
                 debug!(?seq_nr, "unsent MTU probe exceeds congestion window, will re-segment");
+                #[cfg(librqbit_utp_verif)]
+                vs_event!(self, "probe_pop", why = "cwnd", seq = seq_nr, len = 0);
                 self.segment_sizes.disarm_cooldown();
                 self.this_poll.restart = true;
             }
